@@ -107,9 +107,18 @@ class Program(object):
             statement.translate()
 
         while not self.all_sizes_fixed():
+            progress = False
             for index, statement in enumerate(self.statements):
                 if not statement.fixed_size:
                     statement.determine_pcr_relative_sizes(self.statements, index)
+                    progress = progress or statement.fixed_size
+            if not progress:
+                # Every remaining statement depends on the size of another one (or of itself):
+                # settle the first on the 16-bit form so that the others can be decided
+                for statement in self.statements:
+                    if not statement.fixed_size:
+                        statement.force_pcr_16_bit()
+                        break
 
         address = 0
         for index, statement in enumerate(self.statements):
